@@ -158,10 +158,93 @@ const MATE_SEEDS: &[&str] = &[
 pub struct Target {
     pub fen: String,
     pub class: Class,
+    /// true for the generated family of busy positions (searched with fewer cache histories in quick)
+    pub busy: bool,
 }
 
-/// All positions within `depth` plies of the mating seeds (loaded as FEN, i.e. without
-/// history, half-move clock reset to 0) that the solver classifies.
+/// Deterministic generator of busy positions (fixed LCG seed, NOT re-randomised per run): used
+/// once, offline, to produce `mate_family.txt`; every listed FEN is re-classified by the solver
+/// at run time, so the file is only a list of candidates.
+pub fn generate(count: usize, seed: u64) -> Vec<(String, &'static str)> {
+    fn candidate(seed: u64, k: u64) -> Option<(String, &'static str)> {
+        let mut x = seed ^ k.wrapping_mul(0x9E3779B97F4A7C15) ^ 0xD1B54A32D192ED03;
+        let mut rnd = move |m: u64| -> u64 {
+            x ^= x << 13;
+            x ^= x >> 7;
+            x ^= x << 17;
+            (x >> 11) % m
+        };
+        let _ = rnd(7);
+        let mut p = Pos::empty();
+        let wk = rnd(64) as usize;
+        let mut bk = rnd(64) as usize;
+        while bk == wk || (((bk % 8) as i32 - (wk % 8) as i32).abs() <= 1 && ((bk / 8) as i32 - (wk / 8) as i32).abs() <= 1) {
+            bk = rnd(64) as usize;
+        }
+        p.sq[wk] = super::oracle::K;
+        p.sq[bk] = -super::oracle::K;
+        let n = 5 + rnd(12) as usize;
+        let kinds = [1i8, 1, 1, 1, 1, 2, 2, 3, 3, 4, 4, 5];
+        for _ in 0..n {
+            let sq = rnd(64) as usize;
+            if p.sq[sq] != 0 {
+                continue;
+            }
+            let kind = kinds[rnd(kinds.len() as u64) as usize];
+            if kind == 1 && (sq < 8 || sq >= 56) {
+                continue;
+            }
+            p.sq[sq] = if rnd(2) == 0 { kind } else { -kind };
+        }
+        p.white = rnd(2) == 0;
+        if p.in_check(!p.white) || p.legal_moves().is_empty() {
+            return None;
+        }
+        let c = classify(&p);
+        if !c.interesting() {
+            return None;
+        }
+        Some((p.fen(), c.label()))
+    }
+    let mut out: Vec<(String, &'static str)> = vec![];
+    let mut block = 0u64;
+    const BLOCK: u64 = 20_000;
+    let threads = super::explore::threads() as u64;
+    loop {
+        let results: std::sync::Mutex<Vec<(u64, String, &'static str)>> = std::sync::Mutex::new(vec![]);
+        std::thread::scope(|sc| {
+            for t in 0..threads {
+                let results = &results;
+                sc.spawn(move || {
+                    let mut local = vec![];
+                    let mut k = block * BLOCK + t;
+                    while k < (block + 1) * BLOCK {
+                        if let Some((f, l)) = candidate(seed, k) {
+                            local.push((k, f, l));
+                        }
+                        k += threads;
+                    }
+                    results.lock().unwrap().extend(local);
+                });
+            }
+        });
+        let mut r = results.into_inner().unwrap();
+        r.sort();
+        for (_, f, l) in r {
+            let have = out.iter().filter(|(_, x)| *x == l).count();
+            let quota = if l == "mate-in-2" { count } else { count / 3 };
+            if have < quota {
+                out.push((f, l));
+            }
+        }
+        block += 1;
+        if out.iter().filter(|(_, l)| *l == "mate-in-2").count() >= count || block > 2000 {
+            break;
+        }
+    }
+    out
+}
+
 pub fn targets(tier: &str) -> Vec<Target> {
     let thorough = tier == "thorough";
     let depth = if thorough { 3 } else { 2 };
@@ -193,7 +276,7 @@ pub fn targets(tier: &str) -> Vec<Target> {
         }
         let c = classify(&p);
         if c.interesting() {
-            v.push(Target { fen: p.fen(), class: c });
+            v.push(Target { fen: p.fen(), class: c, busy: false });
         }
     }
     // keep the class mix: take round-robin from the three classes up to the cap
@@ -215,7 +298,37 @@ pub fn targets(tier: &str) -> Vec<Target> {
         k += 1;
     }
     out.sort_by(|a, b| a.fen.cmp(&b.fen));
+    // the generated family of busy positions (see `generate`); every FEN is re-classified here
+    let (n2, n1, na) = if thorough { (1500, 300, 300) } else { (70, 15, 15) };
+    let mut taken = [0usize; 3];
+    for line in include_str!("mate_family.txt").lines() {
+        let Some((label, fen)) = line.split_once('\t') else { continue };
+        let k = match label {
+            "mate-in-2" => 0,
+            "mate-in-1" => 1,
+            _ => 2,
+        };
+        if taken[k] >= [n2, n1, na][k] {
+            continue;
+        }
+        let Ok(p) = Pos::from_fen(fen) else { continue };
+        let c = classify(&p);
+        if c.interesting() {
+            taken[k] += 1;
+            out.push(Target { fen: p.fen(), class: c, busy: true });
+        }
+    }
     out
+}
+
+/// the cache histories used for the busy family in the quick tier
+pub fn histories_quick_busy() -> Vec<Vec<u8>> {
+    vec![vec![], vec![1], vec![2], vec![3], vec![4], vec![2, 3], vec![3, 4], vec![4, 2], vec![1, 3]]
+}
+
+/// additional three-search histories (thorough tier)
+pub fn histories_long() -> Vec<Vec<u8>> {
+    vec![vec![2, 3, 1], vec![1, 2, 3], vec![3, 2, 1], vec![4, 3, 2], vec![1, 3, 2], vec![2, 1, 3], vec![3, 1, 4], vec![2, 4, 1]]
 }
 
 pub fn run_history(fen: &str, hist: &[u8], depth: u8) -> Option<(Option<String>, Option<String>)> {
@@ -240,7 +353,11 @@ pub fn run_history(fen: &str, hist: &[u8], depth: u8) -> Option<(Option<String>,
 pub fn worker(args: &Args, w: &Worker) -> i32 {
     searchrun::quiet_panics();
     let ts = targets(&args.tier);
-    let hs = histories();
+    let thorough = args.tier == "thorough";
+    let hs_full = histories();
+    let hs_busy_quick = histories_quick_busy();
+    let mut hs_thorough = histories();
+    hs_thorough.extend(histories_long());
     if w.shard == 0 {
         let count = |l: &str| ts.iter().filter(|t| t.class.label() == l).count();
         w.info("classes", &format!("{} {} {}", count("mate-in-1"), count("mate-in-2"), count("avoidable-threat")));
@@ -248,8 +365,9 @@ pub fn worker(args: &Args, w: &Worker) -> i32 {
     let mut idx = 0;
     for t in &ts {
         let Ok(pos) = Pos::from_fen(&t.fen) else { continue };
+        let hs: &Vec<Vec<u8>> = if thorough { &hs_thorough } else if t.busy { &hs_busy_quick } else { &hs_full };
         for depth in [3u8, 4] {
-            for h in &hs {
+            for h in hs {
                 idx += 1;
                 if !w.mine(idx) {
                     continue;
@@ -257,6 +375,9 @@ pub fn worker(args: &Args, w: &Worker) -> i32 {
                 let Some((best, panicked)) = run_history(&t.fen, h, depth) else { continue };
                 w.count("searches_judged", 1);
                 w.count(&format!("class:{}", t.class.label()), 1);
+                if t.busy {
+                    w.count("searches_on_generated_busy_family", 1);
+                }
                 let why = match (&best, &panicked) {
                     (_, Some(p)) => Some(format!("the search panicked: {p}")),
                     (None, _) => Some("no move chosen".to_string()),
